@@ -77,6 +77,8 @@ judge(void)
   }
 }
 
+static bool find_bound_broken;
+
 static void
 wb(void)
 {
@@ -150,12 +152,20 @@ main(int argc, char** argv)
       const long k = strtol(tok[1], NULL, 10);
       ZixTreeIter* it = (ZixTreeIter*)&va;  // must be overwritten
       const ZixStatus st = zix_tree_find(tree, &k, &it);
+      // theorem reachable_find_bound: c comparisons in a tree of n elements satisfy fib(c + 2) <= n + 1
+      {
+        unsigned long long fa = 0, fb = 1;   // fib(0), fib(1)
+        for (int i = 0; i < cmp_calls + 1 && fb <= (1ULL << 60); ++i) { const unsigned long long t = fa + fb; fa = fb; fb = t; }
+        find_bound_broken = fb > (unsigned long long)zix_tree_size(tree) + 1;   // fb == fib(cmp_calls + 2)
+      }
       if (st == ZIX_STATUS_SUCCESS) {
         printf("st=SUCCESS key=%ld", *(long*)zix_tree_get(it));
+        if (find_bound_broken) printf(" SPEC-FAIL:find-needed-%d-comparisons-for-%zu-elements-(exceeds-the-AVL-bound)", cmp_calls, zix_tree_size(tree));
         wb();
         printf(" it=%d", id_of(it));
       } else {
         printf("st=%s key=%s", st == ZIX_STATUS_NOT_FOUND ? "NOT_FOUND" : "OTHER", it ? "NON-NULL-ITER" : "NULL");
+        if (find_bound_broken) printf(" SPEC-FAIL:find-needed-%d-comparisons-for-%zu-elements-(exceeds-the-AVL-bound)", cmp_calls, zix_tree_size(tree));
         wb();
       }
     } else if (!strcmp(tok[0], "rm") && n == 2) {
